@@ -58,7 +58,8 @@ Inductive label :=
 | LUpdRead (m : nat) (now : Z) | LUpdDecide (m : nat) | LUpdSave (m : nat) (o : outcome) | LUpdSet (m : nat)
 | LURBegin (m : nat) (ts : Z) | LURDecide (m : nat) | LURSave (m : nat) (o : outcome) | LUREnd (m : nat)
 | LGen (m : nat) (count : Z) | LRespond (m : nat) (i : nat)
-| LReset (m : nat).
+| LReset (m : nat)         (* ResetTimestamp alone (updateAllocator's error path, ctx done) *)
+| LTermEnd (m : nat).      (* campaignLeader returns: its deferred ResetAllocatorGroup has reset the memory *)
 
 Definition upd_f {A} (f : nat -> A) (i : nat) (x : A) : nat -> A := fun j => if Nat.eqb j i then x else f j.
 
@@ -279,12 +280,18 @@ Definition step0 (s : state) (l : label) : option state :=
           else None
       | None => None
       end
-  (* ---------------- ResetTimestamp (ResetAllocatorGroup, end of campaignLeader) ---------------- *)
+  (* ---------------- ResetTimestamp ---------------- *)
   | LReset m =>
       let x := mems s m in
       if locked x then None
-      else Some (set_mem s m (Mem None 0 (last_saved x) (valid x)
-                                  (match ctl x with CIniting => CIniting | _ => CIdle end) (syn x) (upd x) (ur x)))
+      else Some (set_mem s m (Mem None 0 (last_saved x) (valid x) (ctl x) (syn x) (upd x) (ur x)))
+  | LTermEnd m =>
+      let x := mems s m in
+      if locked x then None
+      else match ctl x with
+           | CIniting => None                      (* Initialize is a call of the same goroutine *)
+           | _ => Some (set_mem s m (Mem None 0 (last_saved x) (valid x) CIdle (syn x) (upd x) (ur x)))
+           end
   end.
 
 (* every executed label advances the ghost clock *)
